@@ -98,6 +98,12 @@ pub struct Sys<'p> {
     pub cycles: HashMap<u8, u32>,
     pub end: Option<End>,
     pub fault: Option<PanicInfo>,
+    /// per thread: objects of its heap that were unreachable (from every thread) when its current cycle started
+    pub garbage_at_start: HashMap<u8, Vec<u32>>,
+    /// set when a cycle finished without reclaiming something that was garbage at its start
+    pub precision_violation: Option<String>,
+    /// completed cycles over all threads
+    pub cycles_completed: u32,
 }
 
 impl<'p> Sys<'p> {
@@ -109,7 +115,19 @@ impl<'p> Sys<'p> {
         let main_id = rt.main().id();
         let mut host = StdHost::default();
         host.inputs = prog.inputs.iter().cloned().collect();
-        Sys { prog, rt: Some(rt), host, msteps: 0, main_id, cycles: HashMap::new(), end: None, fault: None }
+        Sys {
+            prog,
+            rt: Some(rt),
+            host,
+            msteps: 0,
+            main_id,
+            cycles: HashMap::new(),
+            end: None,
+            fault: None,
+            garbage_at_start: HashMap::new(),
+            precision_violation: None,
+            cycles_completed: 0,
+        }
     }
 
     pub fn rt(&self) -> &Runtime {
@@ -212,6 +230,37 @@ impl<'p> Sys<'p> {
                 }
                 self.end = end;
                 self.rt = Some(rt);
+                // precision bookkeeping (C07a): garbage at cycle start must be gone at cycle end
+                match a {
+                    Act::S(t) => {
+                        let rt = self.rt.as_ref().unwrap();
+                        let id = main_id + t as u64;
+                        let reach: std::collections::HashSet<u32> = rt.verif_reachable_all().into_iter().collect();
+                        if let Some(th) = rt.verif_threads().into_iter().find(|x| x.id() == id) {
+                            let g: Vec<u32> = th.verif_heap_seqs().into_iter().filter(|s| !reach.contains(s)).collect();
+                            self.garbage_at_start.insert(t, g);
+                        }
+                    }
+                    Act::W(t) => {
+                        let rt = self.rt.as_ref().unwrap();
+                        let id = main_id + t as u64;
+                        if let Some(th) = rt.verif_threads().into_iter().find(|x| x.id() == id) {
+                            if th.verif_gc_phase() == GcPhase::Idle {
+                                self.cycles_completed += 1;
+                                let live: std::collections::HashSet<u32> = th.verif_heap_seqs().into_iter().collect();
+                                if let Some(g) = self.garbage_at_start.remove(&t) {
+                                    let kept: Vec<u32> = g.into_iter().filter(|s| live.contains(s)).collect();
+                                    if !kept.is_empty() {
+                                        self.precision_violation = Some(format!(
+                                            "cycle on thread {t} finished but object(s) {kept:?} that were unreachable when it started were not reclaimed"
+                                        ));
+                                    }
+                                }
+                            }
+                        }
+                    }
+                    _ => {}
+                }
             }
             Err(p) => {
                 // the runtime may be inconsistent: leak it
@@ -236,6 +285,10 @@ impl<'p> Sys<'p> {
             k.push(0xFFFF_0000 | t as u32);
             k.push(self.cycles.get(&t).copied().unwrap_or(0));
             k.extend(th.verif_gc_key());
+            if let Some(g) = self.garbage_at_start.get(&t) {
+                k.push(0xFFFF_FFFE);
+                k.extend(g.iter().copied());
+            }
         }
         k
     }
